@@ -76,6 +76,8 @@ class ExtendedCommunities(ExtendedCommunitiesBase):
 
     ID = Attribute.CODE.EXTENDED_COMMUNITY
     FLAG = Attribute.Flag.TRANSITIVE | Attribute.Flag.OPTIONAL
+    # RFC 7606 7.14: a malformed EXTENDED COMMUNITIES attribute calls for treat-as-withdraw
+    TREAT_AS_WITHDRAW = True
 
     def __init__(self, packed: Buffer = b'') -> None:
         """Initialize from packed wire-format bytes.
